@@ -18,6 +18,10 @@ CLAIMED["C20"] = ("property-based testing (Hypothesis): differential against CPy
          "Exploration: generated digit strings, generated+mutated JSON/YAML documents, random strings and byte arrays at hash-block boundaries, each compared with the CPython implementation of the standard function. Right level: the property is functional equality over unbounded string domains.",
          "Trusts CPython int(), json (made strict), base64, hashlib, shlex, html, ast; RFC 4648 grammar as a regular expression; YAML agreement restricted to YAML-printable raw characters.",
          "DESIGN.md section 5 / C20")
+CLAIMED["C19"] = ("property-based testing (Hypothesis): generated printf directives x values, differential against CPython's % operator where conventions coincide, printf invariants elsewhere",
+         "Exploration: generated directives (flags/width/precision/*/(key)/length modifiers/conversions) and values; digit-exact comparison with CPython's % on the documented common subset, invariants (width, padding, sign, precision, value within half a unit, g/G shape) for the rest; malformed formats must be errors.",
+         "Trusts CPython's % operator and fractions.Fraction; the classes where Jsonnet's documented behaviour differs from Python ('#o', precision on %s, sign of -0, g/G, integers >= 2^53) are judged by invariants only.",
+         "DESIGN.md section 5 / C19")
 NOT_YET = {}
 
 def main():
